@@ -95,7 +95,7 @@ func localLit(fn *ast.FuncDecl, name string) ast.Expr {
 	return found
 }
 
-func leanNatList(xs []int64) string {
+func leanInt64List(xs []int64) string {
 	s := make([]string, len(xs))
 	for i, x := range xs {
 		s[i] = fmt.Sprint(x)
@@ -137,7 +137,7 @@ func init() {
 			if err != nil {
 				return fmt.Errorf("mitm.go: %s.%s: %v", t.fn, t.v, err)
 			}
-			fmt.Fprintf(b, "/-- `%s` in %s -/\ndef %s : List Nat := %s\n", t.v, t.fn, t.lean, leanNatList(xs))
+			fmt.Fprintf(b, "/-- `%s` in %s -/\ndef %s : List Nat := %s\n", t.v, t.fn, t.lean, leanInt64List(xs))
 		}
 		g, err := f.VarValue("greaseCiphers")
 		if err != nil {
@@ -147,7 +147,7 @@ func init() {
 		if err != nil {
 			return fmt.Errorf("mitm.go: greaseCiphers: %v", err)
 		}
-		fmt.Fprintf(b, "/-- keys of `greaseCiphers` -/\ndef greaseCiphers : List Nat := %s\n", leanNatList(gs))
+		fmt.Fprintf(b, "/-- keys of `greaseCiphers` -/\ndef greaseCiphers : List Nat := %s\n", leanInt64List(gs))
 		for _, c := range []string{"extensionOCSPStatusRequest", "extensionSupportedCurves", "extensionSupportedPoints", "extensionHeartbeat", "scsvRenegotiation", "TLS_RSA_WITH_RC4_128_MD5"} {
 			v, ok := env[c]
 			if !ok {
